@@ -1745,6 +1745,18 @@ func (s *Store) ExecuteTransaction(transaction *Transaction) error {
 		names = append(names, k)
 	}
 	sort.Strings(names)
+	// core.Dataset comes last: every writer updates its item counter there while still holding its own
+	// dataset's lock, so "dataset first, core.Dataset second" is the order everybody else uses
+	_, holdsCore := transaction.DatasetEntities["core.Dataset"]
+	if holdsCore {
+		withoutCore := make([]string, 0, len(names))
+		for _, k := range names {
+			if k != "core.Dataset" {
+				withoutCore = append(withoutCore, k)
+			}
+		}
+		names = append(withoutCore, "core.Dataset")
+	}
 	for _, k := range names {
 		dataset, ok := s.datasets.Load(k)
 		if !ok {
@@ -1799,7 +1811,7 @@ func (s *Store) ExecuteTransaction(transaction *Transaction) error {
 			return errors.New("no dataset " + k)
 		}
 
-		err = ds.(*Dataset).updateDataset(v, nil)
+		err = ds.(*Dataset).updateDataset(v, nil, holdsCore)
 		if err != nil {
 			return err
 		}
